@@ -119,6 +119,20 @@ func (E *Engine) solveAll(cfg runCfg) []*OblResult {
 				if rm.Status == "sat" {
 					j.res.Model = rm.Model
 				}
+			} else {
+				// candidate counterexample: drop the quantified hypotheses (weaker assumptions => the model may be
+				// spurious; only a replay on the real code makes it a confirmed failing input)
+				var kept []string
+				for _, ln := range strings.Split(j.q, "\n") {
+					if strings.HasPrefix(ln, "(assert") && (strings.Contains(ln, "(forall") || strings.Contains(ln, "(exists")) {
+						continue
+					}
+					kept = append(kept, ln)
+				}
+				rm := Solve(strings.Join(kept, "\n"), 5, cfg.Seed, true, true)
+				if rm.Status == "sat" {
+					j.res.Model = "; candidate model (quantified hypotheses dropped)\n" + rm.Model
+				}
 			}
 		}(j)
 	}
